@@ -128,7 +128,7 @@ func (g *gen) codeForm(depth int) string {
 		return common.Pick(g.r, []string{"(defclass pt () ())", "(defclass pt (base) ((x :initarg :x :initform 0 :accessor pt-x) (y)))",
 			"(defclass pt (base other) ((x :initarg :x :initform (list 1 2) :accessor pt-x :documentation \"x-doc\") (y :initform \"s\") z) (:documentation \"pt-doc\") (:default-initargs :x 1))"})
 	case 40:
-		return "(define-condition my-err (error) ((code :initarg :code :reader my-err-code)) (:documentation \"my err\"))"
+		return "(define-condition my-err (error) ((code :initarg :code :reader my-err-code)) (:documentation \"my-err\"))"
 	case 41:
 		return fmt.Sprintf("(when %s%s)", f(), body1())
 	case 42:
